@@ -484,7 +484,17 @@ func (m *Model) fieldOwners() map[*types.Var]string {
 			}
 		}
 		for tn, us := range uses {
-			if len(us) != 1 {
+			if len(us) > 1 {
+				// a struct shared by several owners (embedded in column and in entityColumn): its fields stand for the
+				// pinned fields of every owner when each owner lost exactly those; the field variable is keyed under the
+				// first owner (in name order) and the other owners' keys are aliases of the same variable
+				m.liftShared(c, tn, us[0].owner, func() (owners []string, structs []*types.Struct) {
+					for _, u := range us {
+						owners = append(owners, u.owner)
+						structs = append(structs, u.st)
+					}
+					return
+				}, qual)
 				continue
 			}
 			pinnedOwner := false
@@ -555,7 +565,70 @@ func (m *Model) FieldByKey(key string) *types.Var {
 			return v
 		}
 	}
+	if v, ok := fieldAliasCache[m][key]; ok {
+		return v
+	}
 	return nil
+}
+
+// fieldAliasCache: further keys of a field variable that stands for the pinned fields of several owners.
+var fieldAliasCache = map[*Model]map[string]*types.Var{}
+
+func (m *Model) liftShared(c map[*types.Var]string, tn *types.TypeName, _ string, get func() ([]string, []*types.Struct), qual types.Qualifier) {
+	for k := range PinnedFieldTypes {
+		if strings.HasPrefix(k, tn.Name()+".") {
+			return // the shared struct is itself part of the pinned model
+		}
+	}
+	owners, structs := get()
+	order := make([]int, len(owners))
+	for i := range order {
+		order[i] = i
+	}
+	sort.Slice(order, func(a, b int) bool { return owners[order[a]] < owners[order[b]] })
+	nst := tn.Type().Underlying().(*types.Struct)
+	type lift struct {
+		f    *types.Var
+		keys []string
+	}
+	var lifts []lift
+	for i := 0; i < nst.NumFields(); i++ {
+		f := nst.Field(i)
+		var keys []string
+		for _, oi := range order {
+			key := owners[oi] + "." + f.Name()
+			pv, pinned := PinnedFieldTypes[key]
+			if !pinned {
+				continue
+			}
+			declared := false
+			for j := 0; j < structs[oi].NumFields(); j++ {
+				if structs[oi].Field(j).Name() == f.Name() {
+					declared = true
+				}
+			}
+			if j := strings.IndexByte(pv, ':'); j >= 0 {
+				pv = pv[j+1:]
+			}
+			if declared || pv != types.TypeString(f.Type(), qual) {
+				continue
+			}
+			keys = append(keys, key)
+		}
+		// all owners or none: a field that only some owners had is not the same thing in all of them
+		if len(keys) == len(owners) {
+			lifts = append(lifts, lift{f.Origin(), keys})
+		}
+	}
+	for _, l := range lifts {
+		c[l.f] = l.keys[0]
+		if fieldAliasCache[m] == nil {
+			fieldAliasCache[m] = map[string]*types.Var{}
+		}
+		for _, k := range l.keys[1:] {
+			fieldAliasCache[m][k] = l.f
+		}
+	}
 }
 
 // ExprString renders an expression canonically (parens and conversions to integer types stripped).
@@ -720,6 +793,11 @@ func DropCachesExcept(kept map[*Model]bool) {
 	for f := range calleeWriteCache {
 		if !keptFunc(f) {
 			delete(calleeWriteCache, f)
+		}
+	}
+	for m := range fieldAliasCache {
+		if !kept[m] {
+			delete(fieldAliasCache, m)
 		}
 	}
 	for m := range fieldOwnerCache {
